@@ -73,7 +73,7 @@ CLAIMED = {
             "DESIGN.md §4 C13"),
     "C14": ("fault_enumeration",
             "fault enumeration over generated files: EVERY cut position (every token boundary for ascii bodies) of each generated valid PLY/STL/SPZ/.splat/PTS file is decoded and classified",
-            "For each generated valid file (reference-encoded and writer-produced PLY in three encodings with faces/texcoords/quads, binary STL, gzip'd SPZ v1/v2 with arbitrary packed bytes, .splat, PTS with 3/4/7 columns) every cut position is decoded under a watchdog: outcome must be an error, the complete mesh (only trailing framing cut), the fully contained splats, or a value-equal subset; a runtime panic, fabricated/shifted value, extra element or non-termination is a violation. Files are delivered through six reader behaviours (short reads, data with the final error). Sub-check stl-count-sweep: every triangle count 1..2 000 (thorough 1..45 000), three late cuts each, judged against the recipe. Sub-check large-files: element counts at 255/256/65 535/65 536 and buffer-size multiples with 24 sampled cuts each. Exhaustive per file (~300 cuts/file, ~10^6 cuts quick); files are sampled.",
+            "For each generated valid file (reference-encoded and writer-produced PLY in three encodings with faces/texcoords/quads, binary STL, gzip'd SPZ v1/v2 with arbitrary packed bytes, .splat, PTS with 3/4/7 columns) every cut position is decoded under a watchdog: outcome must be an error, the complete mesh (only trailing framing cut), the fully contained splats, or - for the count-less PTS text format only - a value-equal subset; a runtime panic, fabricated/shifted value, extra element or non-termination is a violation. Files are delivered through six reader behaviours (short reads, data with the final error). Sub-check huge-files-cut: four strict prefixes of a 52 MB STL (2^20+3 triangles) and of two 25 MB binary PLY clouds (2^21+8 vertices). Sub-check stl-count-sweep: every triangle count 1..2 000 (thorough 1..45 000), three late cuts each, judged against the recipe. Sub-check large-files: element counts at 255/256/65 535/65 536 and buffer-size multiples with 24 sampled cuts each. Exhaustive per file (~300 cuts/file, ~10^6 cuts quick); files are sampled.",
             "Trusted: decode of the complete file as the reference; watchdog (10 s, re-confirmed for another 50 s before it is reported) as 'terminates'. In-number cuts of ascii bodies are outside the quantifier.",
             "DESIGN.md §4 C14"),
     "C15": ("exploration",
